@@ -97,6 +97,23 @@ Theorem holder_in_op_moves : forall cf progs s a la c,
   enabled glob loc (tstep cf) s a c.
 Proof. exact holder_in_op_enabled_l. Qed.
 
+(* termination, existence form (Common/Progress.v): from every reachable state some schedule of at most mu(s)
+   steps leads to a state in which nothing can move; mu (14 per remaining client operation + the remaining
+   steps of the current one) drops at every enabled step under every choice - no choice of this component is a
+   retry - so every schedule makes at most mu(s) moves *)
+Theorem wr_eventually_settles : forall cf progs s, R cf progs s ->
+  exists sc, sched_ok any_choice sc /\ (length sc <= mu s)%nat /\
+             quiescent glob loc (tstep cf) (run glob loc (tstep cf) s sc).
+Proof. exact WrapperProofs.wr_eventually_settles. Qed.
+Theorem wr_bounded_work : forall cf (s : sys glob loc) sc, (moves glob loc (tstep cf) s sc <= mu s)%nat.
+Proof. exact WrapperProofs.wr_bounded_work. Qed.
+(* well-formed clients (wf_progs, decidable: no blocking acquisition while a handle of the thread may own a lock,
+   every handle released by its thread before the program ends) always finish *)
+Theorem wr_eventually_finishes : forall cf progs s, wf_progs cf progs = true -> R cf progs s ->
+  exists sc, sched_ok any_choice sc /\ (length sc <= mu s)%nat /\
+             all_fin glob loc fin (run glob loc (tstep cf) s sc) = true.
+Proof. exact WrapperProofs.wr_eventually_finishes. Qed.
+
 (* ---------- non-vacuity ---------- *)
 Definition cf_g : config := Cfg FGuarded MTimed true 5 [] false.
 Definition cf_o : config := Cfg FOrdered MSharedTimed true 5 [] false.
@@ -144,3 +161,15 @@ Example ex_plain_load :
   at_ (locof (thr ex_plain) 1) = GAcq (Store 3) /\ tstep cf_pl 1 0 (gl ex_plain) (locof (thr ex_plain) 1) = None /\
   val (gl (run glob loc (tstep cf_pl) ex_plain (rep 0 1 ++ rep 1 2))) = 3.
 Proof. vm_compute. repeat split; auto. Qed.
+
+(* wf_progs is satisfiable by non-trivial programs (handles of both kinds, a move, unlock, whole-object operations
+   between the critical sections) and false for a program that keeps a handle or blocks while holding one *)
+Definition cf_w : config := Cfg FShared MSharedTimed true 0 [] false.
+Example ex_wf_nontrivial :
+  wf_progs cf_w [[Lock 0; Use 0 AIncr false; MoveCtor 0 1; Use 1 ARead false; Destroy 1; Destroy 0; LockShared 2; Unlock 2];
+                 [TryLockFor 0; Use 0 (AWrite 3) true; TryLockShared 1; Destroy 0; Destroy 1];
+                 [LockShared 0; Use 0 ARead false; Destroy 0; Lock 1; Destroy 1]] = true /\
+  wf_progs cf_w [[Lock 0; Lock 1; Destroy 0; Destroy 1]] = false /\
+  wf_progs cf_w [[LockShared 0; Use 0 ARead false]] = false /\
+  mu (init cf_w [[Lock 0; Destroy 0]; [LockShared 0]]) = 42%nat.
+Proof. vm_compute. repeat split. Qed.
